@@ -151,6 +151,7 @@ def wallet_history(job):
         nchange = rng.choice([1, 1, 0, 2, 3])
         total = sum(u['value'] for u in spendable)
         explicit = []
+        tainted = False
         rbf = rng.random() < 0.3
         q = {'fee': fee if isinstance(fee, int) else -1, 'minconf': minconf, 'inkeys': inkeys, 'sweep': kind_ == 'sweep', 'explicit': explicit,
              'above': -1,
@@ -180,6 +181,7 @@ def wallet_history(job):
                 mode = rng.random()
                 if mode < 0.25 and spent_outpoints:
                     arr.append(rng.choice(spent_outpoints))
+                    tainted = True          # no fee bump / import of a transaction that is already wrong
                 elif mode < 0.40 and arr:
                     arr.append(arr[0])
                 rng.shuffle(arr)
@@ -228,6 +230,8 @@ def wallet_history(job):
                 ev['raw'] = t.raw_hex()
                 if rbf and kind_ in ('send_to', 'send') and rng.random() < 0.6:
                     replace.append((t, recips))
+            elif tainted:
+                pass
             elif not broadcast and kind_ != 'sweep' and (rng.random() < 0.35 or force[0] == 'spend_most_unsent'):
                 unsent.append((t, recips))
             elif not broadcast and rng.random() < 0.5:
